@@ -41,6 +41,11 @@ CHECKS = {
          "Continuous quantifier; bounded-exhaustive over: 5 general atoms in 9 settings x 2 compatible cells (thorough: all 530 settings) + 9 oblique cells (down to 50 deg / up to 125 deg) in P1 and P-1, bundled ice II / acetic acid / R3c, generated molecular crystals in 10 settings; radii {1.2, 3.8, 6, 12, up to 20}; centres inside and far outside the cell; all five query entry points; required <= observed <= allowed with a 1e-6 A band, duplicates, centre exclusion, attributes of matched images.",
          "Unit-cell atoms taken from the library (validated by C01); atoms_in_radius origin read as Cartesian; reference range = perpendicular widths + 1 shell, asserted empty outermost shell.",
          "2/C03"),
+ "C10": ("model_checking",
+         "bounded enumeration of save->load chains: all 530 settings x 3 formats x deviation-bounded variants (cell, asymmetric unit, provenance, route, generations), with the written text also read by independent reference readers",
+         "Every setting x {CIF, .res, POSCAR} x 11 variants within one deviation of the default (thorough: two deviations): cell parameters, IT number + operation set, elements, labels, coordinates to the written precision, occupancies (CIF), P1 lattice + unit-cell atom set (POSCAR) after the round trip; every text is also parsed by reference readers implementing SHELX LATT/SYMM semantics and CIF syntax independently.",
+         "Asymmetric units are shifted per setting so that no two images are closer than 0.02 (fractional), i.e. away from the library's 0.01 merge tolerance; standard label strings only.",
+         "2/C10"),
 }
 
 ALL = ["C%02d" % i for i in range(1, 21)]
